@@ -219,7 +219,7 @@ func genNearMiss(t *rapid.T) NearMiss {
 
 var specC03Reject = Register(&Spec[NearMiss]{
 	Prop: "C03", Name: "reject",
-	Rule: "one edit of a Policy-grammar version that puts it in exactly one of the rejection classes the statement names: non-numeric epoch, negative epoch, epoch > MaxInt64, whitespace embedded inside, nothing after the colon, non-digit first upstream character, a character outside [A-Za-z0-9.+~] (plus ':' '-') in upstream or revision (ASCII punctuation and control bytes, NUL, DEL, any lone byte >= 0x80, any non-space rune from Latin-1/Latin Extended, Greek, Cyrillic, Arabic-Indic digits, general punctuation, CJK, fullwidth forms, emoji). Oracle: Parse, UnmarshalControl and UnmarshalText all return an error. Every case is non-trivial; distinct by text; classes counted separately.",
+	Rule: "one edit of a Policy-grammar version that puts it in exactly one of the rejection classes the statement names: non-numeric epoch, negative epoch, epoch > MaxInt64, whitespace embedded inside, nothing after the colon, non-digit first upstream character, a character outside [A-Za-z0-9.+~] (plus ':' '-') in upstream or revision (ASCII punctuation and control bytes, NUL, DEL, any lone byte >= 0x80, any non-space rune from Latin-1/Latin Extended, Greek, Cyrillic, Arabic-Indic digits, general punctuation, CJK, fullwidth forms, emoji). Oracle: Parse, UnmarshalControl and UnmarshalText all return an error, and a fixed valid version parsed right afterwards (also into the variable that just saw the failure) comes out as written. Every case is non-trivial; distinct by text; classes counted separately.",
 	Check: func(n NearMiss, r *Recorder) error {
 		r.Case(n.Text, true, "reject:"+n.Class)
 		r.Sample(n)
@@ -233,6 +233,14 @@ var specC03Reject = Register(&Spec[NearMiss]{
 		var v2 version.Version
 		if err := v2.UnmarshalText([]byte(n.Text)); err == nil {
 			return errf("UnmarshalText(%q) accepted a %s string as %+v", n.Text, n.Class, v2)
+		}
+		// nothing of a rejected string stays behind: a valid one right afterwards is what it says
+		want := version.Version{Epoch: 3, Version: "1.2~rc1+dfsg", Revision: "4+b1"}
+		if v, err := version.Parse("3:1.2~rc1+dfsg-4+b1"); err != nil || v != want {
+			return errf("after rejecting %q, Parse(\"3:1.2~rc1+dfsg-4+b1\") = %+v, %v", n.Text, v, err)
+		}
+		if err := v2.UnmarshalControl("3:1.2~rc1+dfsg-4+b1"); err != nil || v2 != want {
+			return errf("after rejecting %q, UnmarshalControl of a valid version into the same variable = %+v, %v", n.Text, v2, err)
 		}
 		return nil
 	},
